@@ -42,7 +42,8 @@ From Gen Require Import Consts.
 From C03 Require Import Model.
 From C18 Require Model.
 From C18B Require Import Model Spec Proofs_Tight Proofs_Inv Proofs_Cover Proofs_Trunc Proofs_Sites Proofs_Props Tie.
-From C18B Require Import Concrete Proofs_Concrete.
+From C18B Require Import Concrete Proofs_Concrete Bulk Proofs_Bulk.
+From C17 Require Model.
 Import ListNotations.
 Local Open Scope N_scope.
 
@@ -233,6 +234,39 @@ Theorem imported_decoders_admissible : forall D : decoders,
   (decoders_strict D -> decoders_strict (with_models D)).
 Proof. intros D. split; [apply with_models_total|apply with_models_strict]. Qed.
 Print Assumptions imported_decoders_admissible.
+
+(* 8. The bulk read of the parser (Parser.Read: CFF INDEX payloads, Private
+   DICT), a loop of ReadBytes calls of at most bufferSize bytes.  For EVERY
+   behaviour of ReadBytes within its contract (k bytes and no error, or no bytes
+   and an error - whatever the kind of error), every buffer size and request:
+   the error returned is "some ReadBytes call failed" - also when it was the
+   last or only one; the count is the sum of the chunks delivered; without
+   error the count is the length asked for, with an error it is smaller (the
+   length asked for is never reported as read); no call is made after a failed
+   one; every call asks for 1..bufferSize bytes. *)
+Theorem bulk_read_error_propagates : forall (St : Type) (bs : N) (rb : St -> N -> St * N * bool) (st : St) (want : N),
+  0 < bs -> rb_ok rb ->
+  let r := M_bulk_read bs rb st want in
+  br_fuel r = true /\
+  br_err r = existsb snd (br_calls r) /\
+  br_total r = delivered (br_calls r) /\
+  (br_err r = false -> br_total r = want) /\
+  (br_err r = true -> br_total r < want) /\
+  (forall pre c post, br_calls r = pre ++ c :: post -> snd c = true -> post = []) /\
+  Forall (fun c : N * bool => 0 < fst c /\ fst c <= bs) (br_calls r).
+Proof. intros St bs rb st want. exact (bulk_read_spec bs rb st want). Qed.
+Print Assumptions bulk_read_error_propagates.
+
+(* C17's model of Parser.Read (m_read, proved there to be a plain byte view
+   when the only failure is the end of the input) is this loop over C17's
+   ReadBytes *)
+Theorem bulk_read_is_c17_read : forall (bs : nat) (data : list N) (fuel : nat) (s : C17.Model.pstate) (k n : nat)
+    (b : list N) (failed : bool) (s' : C17.Model.pstate) (total : N) (calls : list (N * bool)),
+  C17.Model.m_read bs data fuel s k = (n, b, failed, s', true) ->
+  let r := M_bulk_loop (N.of_nat bs) (rb17 bs data) fuel s (N.of_nat k) total calls in
+  br_state r = s' /\ br_total r = total + N.of_nat n /\ br_err r = failed /\ br_fuel r = true.
+Proof. exact m_read_is_bulk_loop. Qed.
+Print Assumptions bulk_read_is_c17_read.
 
 (* the sparse file the correspondence runs the model on is a plain file *)
 Theorem sparse_is_plain : forall (pre : list N) (L : N), N.of_nat (length pre) <= L ->
